@@ -1,7 +1,7 @@
 CONSTANTS
   Part = "simple"
-  NI = 2
-  MaxRep = 5
+  NI = 3
+  MaxRep = 3
   MaxN = 9
   NKeys = 1
 INIT Init
